@@ -136,6 +136,11 @@ def find(
         limit = None
     after = datetime(1980, 1, 1, tzinfo=UTC) if after is None else after
     before = datetime.now(UTC) if before is None else before
+    # the journal is kept by UTC calendar day: walk the days of the UTC instants
+    if after.tzinfo is not None:
+        after = after.astimezone(UTC)
+    if before.tzinfo is not None:
+        before = before.astimezone(UTC)
     entries = []
     oldest = after > datetime(1980, 1, 1, tzinfo=UTC) and limit is not None
     one = timedelta(seconds=1)
